@@ -74,11 +74,34 @@ const ruleFILTERText = "every surviving parity shard is a candidate: in rsec16 C
 func ruleFILTER(w *World, r *Report) {
 	r.rule("FILTER", ruleFILTERText)
 	n := 0
+	type cand struct {
+		fn     *ssa.Function
+		parity *ssa.Parameter
+	}
+	var cands []cand
 	for _, fn := range w.funcsInPkgs("rsec16") {
 		if fn.Name() != "ReconstructData" || fn.Signature.Recv() == nil || len(fn.Params) < 3 {
 			continue
 		}
-		parity := fn.Params[2]
+		cands = append(cands, cand{fn, fn.Params[2]})
+	}
+	// the scan may have been moved into a private helper that is handed the parity shards
+	for i := 0; i < len(cands) && i < 8; i++ {
+		c := cands[i]
+		for _, ci := range callInstrs(c.fn) {
+			g := ci.Common().StaticCallee()
+			if g == nil || len(g.Blocks) == 0 || g.Pkg != c.fn.Pkg || ci.Common().IsInvoke() {
+				continue
+			}
+			for j, a := range ci.Common().Args {
+				if stripConv(a) == ssa.Value(c.parity) && j < len(g.Params) {
+					cands = append(cands, cand{g, g.Params[j]})
+				}
+			}
+		}
+	}
+	for _, cd := range cands {
+		fn, parity := cd.fn, cd.parity
 		loops := naturalLoops(fn)
 		// the loops that read parity[i]
 		type scan struct {
@@ -136,6 +159,39 @@ func ruleFILTER(w *World, r *Report) {
 					bad = fmt.Sprintf("the scan ends at %s on a condition that reads a parity shard (%s): shards after the first gap are never considered", w.ipos(iff), iff.Cond)
 				}
 			}
+			// inside the scan a shard may be left out only because it is nil: every other condition on
+			// parity[i] on the way to the statement that collects it drops a surviving shard
+			if bad == "" {
+				for _, b := range blocks {
+					for _, in := range b.Instrs {
+						ap, ok := in.(*ssa.Call)
+						if !ok || isBuiltinCall(ap, "append") == nil {
+							continue
+						}
+						for _, f := range domFacts(b) {
+							if !l.body[f.If.Block()] {
+								continue
+							}
+							for _, c := range factCmps(f) {
+								x, y := c.X, c.Y
+								if y == nil {
+									if deepDependsOnElem(x, parity) {
+										bad = fmt.Sprintf("a parity shard is collected only if %s holds (%s): a surviving shard can be left out for a reason other than being nil", f.Cond, w.ipos(f.If))
+									}
+									continue
+								}
+								nilCmp := (isNilConst(y) && elemOfParam(x, parity) != nil) || (isNilConst(x) && elemOfParam(y, parity) != nil)
+								if nilCmp {
+									continue
+								}
+								if deepDependsOnElem(x, parity) || deepDependsOnElem(y, parity) {
+									bad = fmt.Sprintf("a parity shard is collected only if %s holds (%s): a surviving shard can be left out for a reason other than being nil", f.Cond, w.ipos(f.If))
+								}
+							}
+						}
+					}
+				}
+			}
 			// the scan starts at row 0: the index phi's initial value is the constant 0 (or -1 for a range loop)
 			if bad == "" {
 				if lo, ok := loopInit(sc.idx, l); ok {
@@ -185,6 +241,33 @@ func shallowDependsOnElem(v ssa.Value, p ssa.Value) bool {
 			if isBuiltinCall(x, "len") != nil || isBuiltinCall(x, "cap") != nil {
 				return false
 			}
+		}
+		if in, ok := v.(ssa.Instruction); ok {
+			for _, op := range in.Operands(nil) {
+				if *op != nil && walk(*op) {
+					return true
+				}
+			}
+		}
+		return false
+	}
+	return walk(v)
+}
+
+// deepDependsOnElem: like shallowDependsOnElem but also through len/cap (not through phis).
+func deepDependsOnElem(v ssa.Value, p ssa.Value) bool {
+	seen := map[ssa.Value]bool{}
+	var walk func(v ssa.Value) bool
+	walk = func(v ssa.Value) bool {
+		if v == nil || seen[v] {
+			return false
+		}
+		seen[v] = true
+		if elemOfParam(v, p) != nil {
+			return true
+		}
+		if _, isPhi := v.(*ssa.Phi); isPhi {
+			return false
 		}
 		if in, ok := v.(ssa.Instruction); ok {
 			for _, op := range in.Operands(nil) {
@@ -981,24 +1064,88 @@ func ruleNILLIVE(w *World, r *Report) {
 	sort.Slice(bl, func(i, j int) bool { return bl[i].typ+bl[i].field < bl[j].typ+bl[j].field })
 	n := 0
 	for _, pf := range bl {
-		stores, nonNil := 0, 0
+		// every place a value of the struct type is built: a local or heap cell of that type.
+		// The field is "always non-nil" for a cell if every store into it is provably non-nil
+		// and one of them dominates every point where the cell is read as a whole or escapes;
+		// a cell whose field is not assigned on some path keeps the nil zero value.
+		cells, deadCells := 0, 0
+		live := ""
 		first := ""
 		for _, fn := range fns {
 			for _, b := range fn.Blocks {
 				for _, in := range b.Instrs {
-					st, ok := in.(*ssa.Store)
-					if !ok {
-						continue
-					}
-					fa, ok := st.Addr.(*ssa.FieldAddr)
-					if !ok || fieldName(fa.X.Type(), fa.Field) != pf.field || namedTypeName(fa.X.Type()) != pf.typ {
-						continue
-					}
-					stores++
-					if provablyNonNil(st.Val, map[ssa.Value]bool{}) {
-						nonNil++
-						if first == "" {
-							first = w.ipos(st)
+					switch x := in.(type) {
+					case *ssa.Alloc:
+						pt, ok := x.Type().Underlying().(*types.Pointer)
+						if !ok || namedTypeName(pt.Elem()) != pf.typ {
+							continue
+						}
+						var stores []*ssa.Store
+						var uses []ssa.Instruction
+						copied := false
+						for _, ref := range referrersOf(x) {
+							if fa, ok := ref.(*ssa.FieldAddr); ok && fa.X == ssa.Value(x) {
+								if fieldName(fa.X.Type(), fa.Field) == pf.field {
+									for _, r2 := range referrersOf(fa) {
+										if st, ok := r2.(*ssa.Store); ok && st.Addr == ssa.Value(fa) {
+											stores = append(stores, st)
+										}
+									}
+								}
+								continue
+							}
+							if st, ok := ref.(*ssa.Store); ok && st.Addr == ssa.Value(x) {
+								// a copy of a value built elsewhere: its field is judged where it was built
+								copied = true
+								continue
+							}
+							if _, ok := ref.(*ssa.DebugRef); ok {
+								continue
+							}
+							uses = append(uses, ref)
+						}
+						if len(uses) == 0 || copied {
+							continue
+						}
+						cells++
+						allNonNil := len(stores) > 0
+						for _, st := range stores {
+							if !provablyNonNil(st.Val, map[ssa.Value]bool{}) {
+								allNonNil = false
+							}
+						}
+						dead := allNonNil
+						if dead {
+							for _, u := range uses {
+								dom := false
+								for _, st := range stores {
+									if instrDominates(st, u) {
+										dom = true
+									}
+								}
+								if !dom {
+									dead = false
+								}
+							}
+						}
+						if dead {
+							deadCells++
+							if first == "" {
+								first = w.ipos(stores[0])
+							}
+						} else if live == "" {
+							live = "the value built at " + w.ipos(x) + " can keep a nil " + pf.field
+						}
+					case *ssa.Store:
+						fa, ok := x.Addr.(*ssa.FieldAddr)
+						if !ok || fieldName(fa.X.Type(), fa.Field) != pf.field || namedTypeName(fa.X.Type()) != pf.typ {
+							continue
+						}
+						if _, isCell := fa.X.(*ssa.Alloc); isCell {
+							continue
+						}
+						if !provablyNonNil(x.Val, map[ssa.Value]bool{}) && live == "" {
+							live = "a value of unknown nil-ness is stored at " + w.ipos(x)
 						}
 					}
 				}
@@ -1007,12 +1154,12 @@ func ruleNILLIVE(w *World, r *Report) {
 		key := pf.typ + "." + pf.field
 		n++
 		switch {
-		case stores == 0:
-			r.ok("NILLIVE", key, believed[pf], "never stored explicitly: the field keeps its nil zero value unless set elsewhere")
-		case nonNil == stores:
-			r.bad("NILLIVE", key, first, fmt.Sprintf("every store into %s (%d) puts the address of a fresh object there, yet %s tests it for nil: the test can never fire, so the absence it is meant to detect (a file without that packet) goes unnoticed", key, stores, believed[pf]))
+		case cells == 0:
+			r.ok("NILLIVE", key, believed[pf], "no value of the type is built in the module's functions: nil-ness comes from elsewhere")
+		case live == "" && deadCells == cells:
+			r.bad("NILLIVE", key, first, fmt.Sprintf("every value of %s that is built (%d) has its %s set to the address of a fresh object before it is used, yet %s tests it for nil: the test can never fire, so the absence it is meant to detect (a file without that packet) goes unnoticed", pf.typ, cells, pf.field, believed[pf]))
 		default:
-			r.ok("NILLIVE", key, believed[pf], fmt.Sprintf("%d of %d stores can store nil or a value of unknown nil-ness", stores-nonNil, stores))
+			r.ok("NILLIVE", key, believed[pf], live)
 		}
 	}
 	r.floor("NILLIVE", "pointer fields compared with nil somewhere", n, 1)
@@ -1038,16 +1185,34 @@ func ruleNONEMPTY(w *World, r *Report, pkgs ...string) {
 					continue
 				}
 				x := stripConv(ia.X)
-				phi, ok := x.(*ssa.Phi)
-				if !ok {
+				if _, isSlice := x.Type().Underlying().(*types.Slice); !isSlice {
 					continue
 				}
-				apps, _ := appendWeb(phi)
-				if len(apps) == 0 || !webFromEmpty(phi, map[ssa.Value]bool{}) {
+				var phi ssa.Value
+				switch y := x.(type) {
+				case *ssa.Phi:
+					apps, _ := appendWeb(y)
+					if len(apps) == 0 || !webFromEmpty(y, map[ssa.Value]bool{}) {
+						continue
+					}
+					if !loopCarried(y) {
+						continue // a merge of alternatives, not a collection that grows in a loop
+					}
+					phi = y
+				case *ssa.Extract:
+					// a collection handed back by a module function: how many elements it has is the callee's business
+					c, ok := y.Tuple.(*ssa.Call)
+					if !ok || c.Call.StaticCallee() == nil || c.Call.StaticCallee().Pkg == nil || !isModPath(c.Call.StaticCallee().Pkg.Pkg.Path()) {
+						continue
+					}
+					phi = y
+				case *ssa.Call:
+					if y.Call.StaticCallee() == nil || y.Call.StaticCallee().Pkg == nil || !isModPath(y.Call.StaticCallee().Pkg.Pkg.Path()) {
+						continue
+					}
+					phi = y
+				default:
 					continue
-				}
-				if !loopCarried(phi) {
-					continue // a merge of alternatives, not a collection that grows in a loop
 				}
 				key := fmt.Sprintf("%s:const-index#%d", shortName(fn), k)
 				k++
@@ -1062,7 +1227,7 @@ func ruleNONEMPTY(w *World, r *Report, pkgs ...string) {
 							continue
 						}
 						lc, ok := stripConv(pr.x).(*ssa.Call)
-						if !ok || isBuiltinCall(lc, "len") == nil || stripConv(lc.Call.Args[0]) != ssa.Value(phi) {
+						if !ok || isBuiltinCall(lc, "len") == nil || stripConv(lc.Call.Args[0]) != phi {
 							continue
 						}
 						switch pr.op {
@@ -1081,7 +1246,7 @@ func ruleNONEMPTY(w *World, r *Report, pkgs ...string) {
 				if okFact != "" {
 					r.ok("NONEMPTY", key, w.ipos(ia), "dominated by "+okFact+" on the same slice value")
 				} else {
-					r.bad("NONEMPTY", key, w.ipos(ia), fmt.Sprintf("%s is built up by appends from empty and is indexed with a constant here without a dominating lower bound on its length: when nothing has been collected yet this panics", phiName(phi)))
+					r.bad("NONEMPTY", key, w.ipos(ia), fmt.Sprintf("%s is a collection built up from empty (or handed back by a function) and is indexed with a constant here without a dominating lower bound on its length: when nothing has been collected this panics", phi.Name()))
 				}
 			}
 		}
@@ -1338,14 +1503,27 @@ const ruleELIMText = "elimination is consistent: in gf2p16 Matrix.rowReduceForIn
 
 func ruleELIM(w *World, r *Report) {
 	r.rule("ELIM", ruleELIMText)
-	fn := w.Fn("(gf2p16.Matrix).rowReduceForInverse")
-	if fn == nil {
+	root := w.Fn("(gf2p16.Matrix).rowReduceForInverse")
+	if root == nil {
 		r.unk("ELIM", "(gf2p16.Matrix).rowReduceForInverse", "", "function not found")
 		return
 	}
+	total := 0
+	// the elimination may be split over private helpers (echelon form, back substitution):
+	// every function of the region that has the shape (m Matrix) f(n Matrix, ...) is judged
+	for _, fn := range region(root) {
+		if fn.Parent() != nil || len(fn.Params) < 2 || fn.Signature.Recv() == nil || namedTypeName(fn.Params[1].Type()) != "gf2p16.Matrix" {
+			continue
+		}
+		total += elimCheck(w, r, fn)
+	}
+	r.floor("ELIM", "row operations in rowReduceForInverse", total, 8)
+}
+
+func elimCheck(w *World, r *Report, fn *ssa.Function) int {
 	if len(fn.Params) < 2 {
 		r.unk("ELIM", shortName(fn), w.pos(fn.Pos()), "unexpected signature")
-		return
+		return 0
 	}
 	m, n := ssa.Value(fn.Params[0]), ssa.Value(fn.Params[1])
 	type op struct {
@@ -1466,7 +1644,7 @@ func ruleELIM(w *World, r *Report) {
 			}
 		}
 	}
-	r.floor("ELIM", "row operations in rowReduceForInverse", len(ops), 8)
+	return len(ops)
 }
 
 // ---------------------------------------------------------------------------
@@ -1574,6 +1752,47 @@ func ruleZEROEXP(w *World, r *Report) {
 		}
 	}
 	r.floor("ZEROEXP", "zero tests of the exponent in Pow", n, 1)
+	// the exponent reaches the product whole: on the way from the parameter to any other use it is only
+	// converted, multiplied, or reduced modulo the group order 65535
+	nUse := 0
+	var visit func(v ssa.Value, seen map[ssa.Value]bool)
+	visit = func(v ssa.Value, seen map[ssa.Value]bool) {
+		if seen[v] {
+			return
+		}
+		seen[v] = true
+		for _, ref := range referrersOf(v) {
+			switch x := ref.(type) {
+			case *ssa.Convert:
+				visit(x, seen)
+			case *ssa.ChangeType:
+				visit(x, seen)
+			case *ssa.DebugRef:
+			case *ssa.BinOp:
+				nUse++
+				key := fmt.Sprintf("%s:exp-use#%d", shortName(fn), nUse-1)
+				switch x.Op {
+				case token.EQL, token.NEQ:
+					r.ok("ZEROEXP", key, w.ipos(x), "comparison")
+				case token.MUL:
+					r.ok("ZEROEXP", key, w.ipos(x), "the exponent enters the product whole")
+				case token.REM:
+					if c, ok := constUint(x.Y); ok && c == 65535 && x.X == v {
+						r.ok("ZEROEXP", key, w.ipos(x), "reduced modulo the group order 65535")
+						visit(x, seen)
+					} else {
+						r.bad("ZEROEXP", key, w.ipos(x), fmt.Sprintf("the exponent is reduced by %s, which is not the order of the multiplicative group (65535): t^p changes for large p", x))
+					}
+				default:
+					r.bad("ZEROEXP", key, w.ipos(x), fmt.Sprintf("the exponent is transformed by %s before it is used: only p mod 65535 leaves t^p unchanged (the group has 65535 elements, not 65536)", x))
+				}
+			default:
+				// other uses (stores, calls) are not arithmetic on the exponent
+			}
+		}
+	}
+	visit(p, map[ssa.Value]bool{})
+	r.floor("ZEROEXP", "arithmetic uses of the exponent in Pow", nUse, 2)
 }
 
 // loopCarried: one of the phi's edges is (transitively, through phis and appends) the phi itself.
@@ -1608,4 +1827,202 @@ func loopCarried(phi *ssa.Phi) bool {
 		}
 	}
 	return false
+}
+
+// ---------------------------------------------------------------------------
+// FMTCONST: file names are never used as format strings
+
+const ruleFMTCONSTText = "paths are data, not format strings: in par1 and par2 the format operand of fmt.Sprintf / Fprintf / Printf / Errorf is a constant - a base name spliced into the format is interpreted (a '%' in a directory or file name mangles the volume names Create writes and Repair looks for)"
+
+func ruleFMTCONST(w *World, r *Report) {
+	r.rule("FMTCONST", ruleFMTCONSTText)
+	fmtArg := map[string]int{"fmt.Sprintf": 0, "fmt.Printf": 0, "fmt.Errorf": 0, "fmt.Fprintf": 1, "fmt.Sscanf": 1, "fmt.Fscanf": 1}
+	n := 0
+	for _, fn := range w.funcsInPkgs("par1", "par2") {
+		k := 0
+		for _, c := range callInstrs(fn) {
+			f := c.Common().StaticCallee()
+			if f == nil {
+				continue
+			}
+			idx, ok := fmtArg[f.String()]
+			if !ok || idx >= len(c.Common().Args) {
+				continue
+			}
+			n++
+			key := fmt.Sprintf("%s:%s#%d", shortName(fn), f.String(), k)
+			k++
+			if _, isC := constString(c.Common().Args[idx]); isC {
+				r.ok("FMTCONST", key, w.ipos(c), "constant format")
+			} else {
+				r.bad("FMTCONST", key, w.ipos(c), "the format operand of "+f.String()+" is computed at run time ("+c.Common().Args[idx].String()+"): a '%' in a path is interpreted as a verb and the resulting name is mangled")
+			}
+		}
+	}
+	r.floor("FMTCONST", "formatting calls in par1 and par2", n, 3)
+}
+
+// ---------------------------------------------------------------------------
+// EXTCUT: an extension is cut off as a suffix, never as a character set
+
+const ruleEXTCUTText = "an extension is removed as a suffix: in par1, par2 and cmd/par no call of strings.Trim / TrimRight / TrimLeft has a cut set that is derived from path.Ext / filepath.Ext - those functions remove every trailing character that occurs in the set, so 'data.par' loses its stem's last letters and the volumes beside the index are looked for under the wrong names"
+
+func ruleEXTCUT(w *World, r *Report) {
+	r.rule("EXTCUT", ruleEXTCUTText)
+	n, bad := 0, 0
+	for _, fn := range w.funcsInPkgs("par1", "par2", "cmd/par") {
+		k := 0
+		for _, c := range callInstrs(fn) {
+			nm := calleeName(c.Common())
+			switch nm {
+			case "path.Ext", "path/filepath.Ext":
+				n++
+			case "strings.Trim", "strings.TrimRight", "strings.TrimLeft":
+				if len(c.Common().Args) < 2 {
+					continue
+				}
+				fromExt := false
+				backSlice(c.Common().Args[1], func(v ssa.Value) bool {
+					if cl, ok := v.(*ssa.Call); ok {
+						if x := calleeName(&cl.Call); x == "path.Ext" || x == "path/filepath.Ext" {
+							fromExt = true
+						}
+					}
+					return !fromExt
+				})
+				if fromExt {
+					bad++
+					r.bad("EXTCUT", fmt.Sprintf("%s:%s#%d", shortName(fn), nm, k), w.ipos(c), nm+" is given a file extension as its cut set: it removes characters, not the suffix (use strings.TrimSuffix or slice by len(ext))")
+					k++
+				}
+			}
+		}
+	}
+	if bad == 0 {
+		r.ok("EXTCUT", "all", "", fmt.Sprintf("%d uses of path.Ext / filepath.Ext, none feeds a Trim cut set", n))
+	}
+	r.floor("EXTCUT", "uses of path.Ext / filepath.Ext", n, 3)
+}
+
+// ---------------------------------------------------------------------------
+// GETKEYS: a slice is looked up by CRC32 and MD5, both
+
+const ruleGETKEYSText = "both checksums key the lookup: every non-nil result of (par2.checksumShardLocationMap).get is the inner map indexed by md5.Sum of the data parameter, the inner map being the outer one indexed by the crc32 parameter - no result is produced from the CRC32 alone"
+
+func ruleGETKEYS(w *World, r *Report) {
+	r.rule("GETKEYS", ruleGETKEYSText)
+	fn := w.Fn("(par2.checksumShardLocationMap).get")
+	if fn == nil || len(fn.Params) < 3 {
+		r.unk("GETKEYS", "(par2.checksumShardLocationMap).get", "", "function not found")
+		return
+	}
+	crc, data := ssa.Value(fn.Params[1]), ssa.Value(fn.Params[2])
+	n := 0
+	for _, b := range fn.Blocks {
+		ret, ok := b.Instrs[len(b.Instrs)-1].(*ssa.Return)
+		if !ok || len(ret.Results) != 1 {
+			continue
+		}
+		key := fmt.Sprintf("%s:return#%d", shortName(fn), n)
+		n++
+		v := stripConv(ret.Results[0])
+		if isNilConst(v) {
+			r.ok("GETKEYS", key, w.ipos(ret), "nil (nothing found)")
+			continue
+		}
+		good := false
+		if lk, ok := v.(*ssa.Lookup); ok {
+			if mc := callOf(lk.Index, "crypto/md5.Sum"); mc != nil && len(mc.Call.Args) == 1 && stripConv(mc.Call.Args[0]) == data {
+				inner := stripConv(lk.X)
+				if ex, ok := inner.(*ssa.Extract); ok {
+					inner = ex.Tuple
+				}
+				if lk2, ok := inner.(*ssa.Lookup); ok && stripConv(lk2.Index) == crc {
+					good = true
+				}
+			}
+		}
+		if good {
+			r.ok("GETKEYS", key, w.ipos(ret), "result is m[crc32][md5.Sum(data)]")
+		} else {
+			r.bad("GETKEYS", key, w.ipos(ret), "a result of get is not m[crc32][md5.Sum(data)]: a slice is accepted as found without its MD5 having been compared (CRC32 collisions count as intact data)")
+		}
+	}
+	r.floor("GETKEYS", "returns of get", n, 1)
+}
+
+// ---------------------------------------------------------------------------
+// NAMESYM: a reader rejects a name only where the writer does
+
+const ruleNAMESYMText = "reader and writer agree on which names are acceptable: in the functions that read a protected file's name from the wire (par1.readFileEntry, par2.readFileDescriptionPacket) no branch depends on the decoded name except through the format's shared checker (par2.checkFilename, which the writer calls too) - a name Create accepted is not rejected when the set is read back"
+
+func ruleNAMESYM(w *World, r *Report, pkgs ...string) {
+	r.rule("NAMESYM", ruleNAMESYMText)
+	type ent struct{ pkg, fn, decoder string }
+	n := 0
+	for _, e := range []ent{{"par1", "par1.readFileEntry", "par1.decodeUTF16LEString"}, {"par2", "par2.readFileDescriptionPacket", "par2.decodeNullPaddedASCIIString"}} {
+		use := len(pkgs) == 0
+		for _, p := range pkgs {
+			use = use || p == e.pkg
+		}
+		if !use {
+			continue
+		}
+		fn := w.Fn(e.fn)
+		if fn == nil {
+			r.unk("NAMESYM", e.fn, "", "function not found")
+			continue
+		}
+		var name ssa.Value
+		for _, c := range callInstrs(fn) {
+			if staticCalleeShort(c.Common()) == e.decoder {
+				name = c.Value()
+			}
+		}
+		if name == nil {
+			r.unk("NAMESYM", e.fn, w.pos(fn.Pos()), "the call of "+e.decoder+" was not found")
+			continue
+		}
+		n++
+		bad := ""
+		for _, b := range fn.Blocks {
+			iff, ok := b.Instrs[len(b.Instrs)-1].(*ssa.If)
+			if !ok {
+				continue
+			}
+			dep := false
+			seen := map[ssa.Value]bool{}
+			var walk func(v ssa.Value)
+			walk = func(v ssa.Value) {
+				if v == nil || seen[v] || dep {
+					return
+				}
+				seen[v] = true
+				if v == name {
+					dep = true
+					return
+				}
+				if c, ok := v.(*ssa.Call); ok && strings.HasSuffix(staticCalleeShort(&c.Call), ".checkFilename") {
+					return // the shared checker
+				}
+				if in, ok := v.(ssa.Instruction); ok {
+					for _, op := range in.Operands(nil) {
+						if *op != nil {
+							walk(*op)
+						}
+					}
+				}
+			}
+			walk(iff.Cond)
+			if dep && bad == "" {
+				bad = w.ipos(iff)
+			}
+		}
+		if bad != "" {
+			r.bad("NAMESYM", e.fn, bad, "the reader branches on the decoded name outside the shared checker: names that the writer stores are rejected (or treated differently) when the set is read back")
+		} else {
+			r.ok("NAMESYM", e.fn, w.pos(fn.Pos()), "no branch on the decoded name outside the shared checker")
+		}
+	}
+	r.floor("NAMESYM", "name readers", n, 1)
 }
